@@ -185,6 +185,15 @@ class BoxAgent(ScriptAgent):
     def __len__(self):
         return 1 if self.state == "busy" else 0
 
+    # ... and it compares by VALUE: two boxes in the same state are equal (they are still two agents, with two ids)
+    def __eq__(self, other):
+        return isinstance(other, BoxAgent) and self.state == other.state
+
+    def __ne__(self, other):
+        return not self.__eq__(other)
+
+    __hash__ = Agent.__hash__
+
 
 class BareAgent(ScriptAgent):
     """an agent that carries no properties at all (a type listed without a `properties` section): it still has a state and counts"""
